@@ -18,7 +18,9 @@ class MessageHead(packet.Packet):
         formats.remove_padding(self)
 
         if not self.payload:
-            raise formats.VerifyError('Message without payload')
+            # Some payloads are empty and scapy will not construct them
+            if self.guess_payload_class(b'').fields_desc:
+                raise formats.VerifyError('Message without payload')
         if isinstance(self.payload, packet.Raw):
             raise formats.VerifyError('Message with improper payload')
 
